@@ -28,6 +28,8 @@ func init() {
 		ruleAllocationSwitchMatchesBuilder(c, "R05l")
 		ruleHeadAdvancesWithEveryLog(c, "R05m")
 		ruleTakenJobIsDispatched(c, "R05n")
+		ruleLastElementOfSameSlice(c, "R05o")
+		ruleLastMeansLast(c, "R05p")
 		ruleR05e(c)
 		ruleR05f(c, "R05f")
 	})
